@@ -1,0 +1,46 @@
+//go:build verif
+
+// Copyright © 2022-2026 Obol Labs Inc. Licensed under the terms of a Business Source License 1.1
+
+package eth2wrap
+
+// This file only exports existing unexported state to the verification harness (build tag verif).
+// It adds no behaviour.
+
+// VerifMultiParts returns the clients and fallbacks of a multi client (ok false: not a multi).
+func VerifMultiParts(cl Client) (clients []Client, fallbacks []Client, ok bool) {
+	switch m := cl.(type) {
+	case multi:
+		return m.clients, m.fallbacks, true
+	case *multi:
+		return m.clients, m.fallbacks, true
+	default:
+		return nil, nil, false
+	}
+}
+
+// VerifSameSelector reports whether two multi clients share one best-client selector.
+func VerifSameSelector(a, b Client) bool {
+	sel := func(cl Client) *bestSelector {
+		switch m := cl.(type) {
+		case multi:
+			return m.selector
+		case *multi:
+			return m.selector
+		default:
+			return nil
+		}
+	}
+
+	return sel(a) != nil && sel(a) == sel(b)
+}
+
+// VerifLazyClient returns what a lazy client's getClient returns (ok false: no client yet, or not a lazy client).
+func VerifLazyClient(cl Client) (Client, bool) {
+	l, ok := cl.(*lazy)
+	if !ok {
+		return nil, false
+	}
+
+	return l.getClient()
+}
